@@ -19,8 +19,8 @@ Theorem C04_outcomes : forall exec r fuel g pv st log,
          superstep exec r g (ready_state g sk) pv (ready_list g sk) = (SErr e p, calls)) \/
       (e = EInfiniteLoop /\ exists sk, steps exec r g pv fuel st sk /\ ready_list g sk <> [] /\ p = ready_state g sk)
   | RPaused pz s =>
-      exists k sk calls, k < fuel /\ steps exec r g pv k st sk /\ ready_list g sk <> [] /\
-         superstep exec r g (ready_state g sk) pv (ready_list g sk) = (SPause pz s, calls)
+      exists k sk s2 calls, k < fuel /\ steps exec r g pv k st sk /\ ready_list g sk <> [] /\
+         superstep exec r g (ready_state g sk) pv (ready_list g sk) = (SPause pz s2, calls) /\ s = ready_state g sk
   end.
 Proof. exact run_loop_spec. Qed.
 Print Assumptions C04_outcomes.
